@@ -40,11 +40,15 @@ Example illegal_plain_close_serving : legal Plain [Construct; ServeInThread; Ser
 Proof. reflexivity. Qed.
 
 (** repaired code: close without ever serving returns, socket closed, pool stopped *)
-Example close_alone_returns : lobs Pooled [Construct; ServerClose] = (2, false, Some true).
+Example close_alone_returns : lobs Pooled [Construct; ServerClose] = (2, false, Some true, false).
 Proof. vm_compute. reflexivity. Qed.
 
 (** a plain server's shutdown() waits for the handler running inline; all five calls return *)
-Example plain_inflight : lobs Plain [Construct; ServeInThread; Request true; Shutdown; ServerClose] = (5, false, Some true).
+Example plain_inflight : lobs Plain [Construct; ServeInThread; Request true; Shutdown; ServerClose] = (5, false, Some true, false).
+Proof. vm_compute. reflexivity. Qed.
+
+(** while serving, the loop runs: the fourth component of the observation is not constantly false *)
+Example serving_observed : lobs Pooled [Construct; ServeInThread; Request false] = (3, true, None, true).
 Proof. vm_compute. reflexivity. Qed.
 
 (** a reachable state in which ServerClose has returned (hypothesis of C12_closed_state) *)
@@ -69,10 +73,10 @@ Proof.
 Qed.
 
 (** the same through the executor the correspondence stage uses: only Construct returns, the socket stays open *)
-Example F7_refuted_obs : lobs_gen (fun _ => true) Pooled [Construct; ServerClose] = (1, true, None).
+Example F7_refuted_obs : lobs_gen (fun _ => true) Pooled [Construct; ServerClose] = (1, true, None, false).
 Proof. vm_compute. reflexivity. Qed.
 
 (** the pinned code is fine once the loop has run: the defect is specific to never having served *)
 Example F7_prefix_ok_after_serving :
-  lobs_gen (fun _ => true) Pooled [Construct; ServeInThread; Shutdown; ServerClose] = (4, false, Some true).
+  lobs_gen (fun _ => true) Pooled [Construct; ServeInThread; Shutdown; ServerClose] = (4, false, Some true, false).
 Proof. vm_compute. reflexivity. Qed.
